@@ -105,6 +105,12 @@ def observer_change_handler(event, graph, handler, target, dispatcher):
             pass
 
     if all(event.new is not skipped for skipped in UNOBSERVABLE_VALUES):
+        # A handler called earlier for this same change may have assigned
+        # the trait again. That nested change has been handled already, and
+        # the value reported here is not reachable any more.
+        current = event.object.__dict__.get(event.name, event.new)
+        if current is not event.new:
+            return
         add_or_remove_notifiers(
             object=event.new,
             graph=graph,
